@@ -332,6 +332,16 @@ func (k c08) Run(c *mon.Ctx, workload string, i int64) {
 		load, bad = loadV2Err, c08BadV2
 	}
 	base := gt.ParenthesizeStmts(k.base(c, v2))
+	// tokens that span several lines in front of everything else (a raw
+	// multi-line string, a back-quoted name with a line break in it): the
+	// line and column of whatever follows must still be right
+	switch c.R.Intn(4) {
+	case 0:
+		base = append([]*gt.T{gt.Assign("=", gt.Ident("ml"), &gt.T{K: gt.KStr, S: "one\ntwo\n", Spell: "\"\"\"one\ntwo\n\"\"\""})}, base...)
+	case 1:
+		base = append([]*gt.T{gt.Assign("=", &gt.T{K: gt.KIdent, S: "q\nr", Spell: "`q\nr`"}, gt.Int(1)),
+			gt.Assign("=", gt.Ident("ml"), &gt.T{K: gt.KStr, S: "é\n\n世", Spell: "'''é\n\n世'''"})}, base...)
+	}
 	src := gt.Print(base, nil)
 	err, pan := load(src)
 	c.Eval(1)
